@@ -28,7 +28,10 @@ def gss_name():
 
 def unknown_gss_name():
     """gss-* key exchanges of families the table has no wildcard entry for: unknown names, shown as advertised."""
-    return st.tuples(st.sampled_from(['gss-group20-sha512-', 'gss-group14-sha512-', 'gss-curve25519-sha512-', 'gss-nistp256-sha512-', 'gss-', 'gss-x-', 'gss-gex-sha512-']), st.text(alphabet=B64, min_size=1, max_size=24), st.sampled_from(['', '=', '=='])).map(lambda t: t[0] + t[1] + t[2])
+    other_family = st.tuples(st.sampled_from(['gss-group20-sha512-', 'gss-group14-sha512-', 'gss-curve25519-sha512-', 'gss-nistp256-sha512-', 'gss-', 'gss-x-', 'gss-gex-sha512-']), st.text(alphabet=B64, min_size=1, max_size=24), st.sampled_from(['', '=', '=='])).map(lambda t: t[0] + t[1] + t[2])
+    # a family the table knows followed by more than the one base64 field an instantiation has (base64 has no '-')
+    extra_field = st.tuples(st.sampled_from(gss_prefixes()), st.sampled_from(['v2-', 'x-y-', 'sha1-', '-', 'a-b-c-']), st.text(alphabet=B64, min_size=1, max_size=24), st.sampled_from(['', '=', '=='])).map(lambda t: t[0] + t[1] + t[2] + t[3])
+    return st.one_of(other_family, other_family, extra_field)
 
 
 def unknown_name(max_size=40):
@@ -43,10 +46,20 @@ def nonutf8_name():
     return st.text(alphabet=NON_UTF8, min_size=1, max_size=8)
 
 
+UTF8_EDGE = ['\u00a0', '\u0085', '\u2028', '\u3000', '\u200b', '\u00e9', '\u2003', '\ufeff', '\u1680']
+
+
+def utf8_edge_name(cat):
+    """A name that differs from a database name (or an ordinary unknown one) only by a valid UTF-8 character at its
+    start or end - characters that string clean-up routines like to treat as blanks.  Such a name is a name of its own."""
+    return st.tuples(st.one_of(st.sampled_from(db_names(cat)), unknown_name(12)), st.sampled_from(UTF8_EDGE), st.sampled_from(['pre', 'post', 'post', 'both'])).map(
+        lambda t: ((t[1] if t[2] in ('pre', 'both') else '') + t[0] + (t[1] if t[2] in ('post', 'both') else '')).encode('utf-8').decode('latin-1'))
+
+
 def name(cat, empty=True, weird=True):
     s = [(8, st.sampled_from(db_names(cat))), (2, unknown_name())]
     if weird:
-        s += [(1, nonutf8_name()), (1, unknown_name(64))]
+        s += [(1, nonutf8_name()), (1, unknown_name(64)), (1, utf8_edge_name(cat))]
     if empty:
         s.append((1, st.just('')))
     if cat == 'kex':
